@@ -65,6 +65,8 @@ func c12Exec(op string) string {
 	note := ""
 	if !deepEq(before, m) {
 		note = "receiver modified by NewMap"
+	} else if err == nil && n == nil {
+		note = "NILMAP NewMap returned a nil Map (the empty projection is an empty Map)"
 	}
 	// the JSON wrappers of NewMap fail exactly when NewMap fails, and return its Map
 	if note == "" {
